@@ -9,7 +9,7 @@ MANIFEST_ENTRY = dict(
     note=WALLET_NOTE)
 
 PARAMS = dict(quick_cfgs=["MC_C04_quick.cfg", "MC_C04_self.cfg"], thorough_cfgs=["MC_C04.cfg", "MC_C04_b.cfg"], quick_n=90, thorough_n=500,
-              setup={"nfund": 1, "pad": 3}, assumptions=WALLET_ASSUME, extra_behaviours=[])
+              setup={"nfund": 1, "pad": 3, "fault_refresh": True, "fault_scans": 3}, assumptions=WALLET_ASSUME, extra_behaviours=[])
 
 
 def run(tier, replay_path, t0):
